@@ -253,7 +253,7 @@ func genGroupCase(run *vk.Run, opIdx int, op string, variant int) *gcase {
 		old["wildcard-user"] = map[string]any{"password": map[string]any{"type": "wildcard"}, "permissions": "message"}
 	}
 	key := func(kid string) map[string]any {
-		return map[string]any{"kty": "oct", "alg": "HS256", "k": "c2VjcmV0LXNlY3JldC1zZWNyZXQ", "kid": kid}
+		return map[string]any{"kty": "oct", "alg": "HS256", "k": "MDEyMzQ1Njc4OWFiY2RlZjAxMjM0NTY3ODlhYmNkZWY", "kid": kid}
 	}
 	if r.IntN(2) == 0 || op == "keys-delete" {
 		old["authKeys"] = []any{key("old-" + word(3))}
@@ -396,7 +396,7 @@ type crashEnv struct {
 }
 
 type tracedRun struct {
-	res                 vfs.Result
+	res                vfs.Result
 	groups, data, file string
 }
 
@@ -521,6 +521,29 @@ func (e *crashEnv) runCase(c *gcase) {
 		rb, _ := json.Marshal(raw)
 		return "partial", fmt.Sprintf("neither the old nor the new definition: fresh process sees %s; the file holds %s", tail(fc, 400), tail(string(rb), 400))
 	}
+	// control: a kill right after the operation (on entry to the END marker) must leave NEW
+	if end, ok := base.res.Trace.Marker(vfs.MarkEnd); ok {
+		e.wg.Add(1)
+		go func() {
+			defer e.wg.Done()
+			e.sem <- struct{}{}
+			defer func() { <-e.sem }()
+			t, err := e.traced(c, "kend", []string{vfs.KillAt(end.Name, end.NameOrd)})
+			if err != nil || t.res.TimedOut || !t.res.Killed {
+				run.Count("kill_after_operation_missed", 1)
+				return
+			}
+			run.Eval(1)
+			switch st, what := judge(t); st {
+			case "new":
+				run.Count("crash_left_new", 1)
+			case "inconclusive":
+				run.Inconclusive(what)
+			default:
+				run.Violation("crash-partial-file:"+c.Op+":after-last-syscall", fmt.Sprintf("%s killed right after its last syscall: the completed operation is not what a restart sees (%s) %s", c.Op, st, what), replay("kill-after", nil, ""))
+			}
+		}()
+	}
 	for i := range points {
 		p := points[i]
 		e.wg.Add(1)
@@ -552,8 +575,6 @@ func (e *crashEnv) runCase(c *gcase) {
 				run.Count("crash_left_old", 1)
 			case "new":
 				run.Count("crash_left_new", 1)
-			case "unparsable":
-				run.Violation(fmt.Sprintf("crash-partial-file:%s:%s", c.Op, p.Name), where+": "+what, replay("kill", &p, ""))
 			default:
 				run.Violation(fmt.Sprintf("crash-partial-file:%s:%s", c.Op, p.Name), where+": "+what, replay("kill", &p, ""))
 			}
